@@ -94,6 +94,7 @@ class Tokenizer:
     URISCHEME = "ABCDEFGHIJKLMNOPQRSTUVWXYZabcdefghijklmnopqrstuvwxyz0123456789+.-"
     MAX_DEPTH = 100
     MAX_BRACES = 255
+    MAX_ENTITY_SIZE = 8
     regex = re.compile(r"([{}\[\]<>|=&'#*;:/\\\"\-!\n])", flags=re.IGNORECASE)
     tag_splitter = re.compile(r"([\s\"\'\\]+)")
 
@@ -676,7 +677,12 @@ class Tokenizer:
         if self._read() != ";":
             self._fail_route()
         if numeric:
-            test = int(this, 16) if hexadecimal else int(this)
+            # No valid code point has more digits than this; int() refuses
+            # very long strings, and the C tokenizer stops here too.
+            digits = this.lstrip("0")
+            if len(digits) > self.MAX_ENTITY_SIZE:
+                self._fail_route()
+            test = int(digits or "0", 16 if hexadecimal else 10)
             if test < 1 or test > 0x10FFFF:
                 self._fail_route()
         else:
